@@ -175,6 +175,12 @@ func dischargeAll(jobs []job, timeoutMs int, keepScripts bool) {
 			defer wg.Done()
 			for i := range ch {
 				j := jobs[i]
+				if j.o.Static != "" {
+					j.o.Result = "contract-error"
+					j.o.Solver = "none"
+					j.o.Model = "the contract clause cannot be interpreted against the current code: " + j.o.Static
+					continue
+				}
 				sc := j.g.script(j.o)
 				r := discharge(dir, i, sc, timeoutMs)
 				j.o.Result = r.status
